@@ -147,10 +147,12 @@ def sliding_window_view(arr, window_shape, step, dilation=None):
         (int(step),) * len(window_shape) if isinstance(step, Integral) else tuple(step)
     )
 
-    if not all(isinstance(i, Integral) and i > 0 for i in step):
+    if not all(isinstance(i, Integral) and i > 0 for i in step) or len(step) != len(
+        window_shape
+    ):
         raise ValueError(
             f"`step` must be a positive integer or a sequence of positive "
-            f"integers, got: {step}"
+            f"integers with the same length as `window_shape` ({window_shape}), got: {step}"
         )
 
     if any(i > j for i, j in zip(window_shape[::-1], arr.shape[::-1])):
@@ -201,7 +203,7 @@ def sliding_window_view(arr, window_shape, step, dilation=None):
     step = np.array(step)  # (Sx, ..., Sz)
     window_shape = np.array(window_shape)  # (Wx, ..., Wz)
     in_shape = np.array(arr.shape[-len(step) :])  # (x, ... , z)
-    nbyte = arr.strides[-1]  # size, in bytes, of element in `arr`
+    nbyte = arr.itemsize  # size, in bytes, of element in `arr`
 
     # per-byte strides required to fill a window
     win_stride = tuple(np.cumprod(arr.shape[:0:-1])[::-1]) + (1,)
